@@ -302,7 +302,7 @@ func (r *winRun) main() *simnet.Net {
 		dd[1].unlimited = true
 	}
 	g.wait("window.join-clients")
-	simrt.WaitCond("window.join-handlers", func() bool {
+	hWaitCond("window.join-handlers", func() bool {
 		for i := range r.srvDone {
 			if !r.srvDone[i] {
 				return false
@@ -314,19 +314,19 @@ func (r *winRun) main() *simnet.Net {
 	r.tornDown = true
 	conn.Close()
 	simrt.Recv(0, srv.Stop())
-	simrt.WaitQuiescent("window.teardown")
+	hWaitQuiescent("window.teardown")
 	r.bg.Cancel()
-	simrt.WaitQuiescent("window.teardown2")
+	hWaitQuiescent("window.teardown2")
 	return net
 }
 
 func (r *winRun) settle(net *simnet.Net) {
 	for {
-		simrt.WaitQuiescent("window.settle")
+		hWaitQuiescent("window.settle")
 		if !net.InFlight() {
 			return
 		}
-		simrt.Sleep(1000)
+		hSleep(1000)
 	}
 }
 
@@ -415,7 +415,7 @@ func (r *winRun) recvLoop(i, dir int, ch mpx.Channel) {
 		want++
 	}
 	for {
-		simrt.WaitCond("window.credit", func() bool { return d.unlimited || d.credits > 0 })
+		hWaitCond("window.credit", func() bool { return d.unlimited || d.credits > 0 })
 		if !d.unlimited {
 			d.credits--
 		}
@@ -458,7 +458,7 @@ func (r *winRun) client(i int, conn mpx.Conn) {
 		g.goTask(fmt.Sprintf("ch%d-crecv", i), func() {
 			d := r.d[i][1]
 			for d.nRecv < len(d.sizes) {
-				simrt.WaitCond("window.credit", func() bool { return d.unlimited || d.credits > 0 })
+				hWaitCond("window.credit", func() bool { return d.unlimited || d.credits > 0 })
 				if !d.unlimited {
 					d.credits--
 				}
@@ -485,6 +485,8 @@ func (r *winRun) client(i int, conn mpx.Conn) {
 }
 
 func (r *winRun) handler(ctx mpx.Context, ch mpx.Channel) status.Status {
+	hbAcquire()
+	defer hbRelease()
 	first, st := ch.Receive(r.bg)
 	if !st.OK() {
 		simrt.Fail("C07-open-lost", "handler first receive: %s", stName(st))
@@ -508,7 +510,7 @@ func (r *winRun) handler(ctx mpx.Context, ch mpx.Channel) status.Status {
 	if !c.CloseByCli {
 		// the server closes after it has sent everything and received everything
 		for d0.nRecv < len(d0.sizes) {
-			simrt.WaitCond("window.credit", func() bool { return d0.unlimited || d0.credits > 0 })
+			hWaitCond("window.credit", func() bool { return d0.unlimited || d0.credits > 0 })
 			if !d0.unlimited {
 				d0.credits--
 			}
